@@ -14,6 +14,8 @@ var (
 	vsymC01Plus   = 1      // 1: PE32+, 0: PE32
 	vsymC01Lfanew = 0x80   // e_lfanew (case-split by the registry)
 	vsymC01MaxLen = 1 << 24 // image length bound
+	vsymC01NoCert   = 0    // 1: no certificate table (quick tier for two sections)
+	vsymC01NonEmpty = 0    // 1: every section has raw data (quick tier for two sections)
 )
 
 func v16(b []byte, o int) uint16 { return uint16(b[o]) | uint16(b[o+1])<<8 }
@@ -67,6 +69,9 @@ func vWellFormedImage(gapFree bool) *vImg {
 	vsym.Assume(vsym.And(sh >= hdrEnd, sh <= L))
 	certVA, certSize := int(v32(img, dd4)), int(v32(img, dd4+4))
 	noCert := vsym.And(certVA == 0, certSize == 0)
+	if vsymC01NoCert == 1 {
+		vsym.Assume(noCert)
+	}
 	vsym.Assume(vsym.Or(noCert, vsym.And(certSize > 0, certVA >= sh, certVA+certSize == L, certVA%8 == 0, certSize%8 == 0)))
 	bodyEnd := L - certSize
 	v := &vImg{img: img, opt: opt, ck: opt + 64, dd4: dd4, sectab: sectab, nsec: nsec, sh: sh, certVA: certVA, certSize: certSize}
@@ -75,6 +80,9 @@ func vWellFormedImage(gapFree bool) *vImg {
 		vsym.Assume(img[h] != '/')            // no string-table names
 		vsym.Assume(v16(img, h+32) == 0)      // NumberOfRelocations
 		ptr, size := int(v32(img, h+20)), int(v32(img, h+16))
+		if vsymC01NonEmpty == 1 {
+			vsym.Assume(size != 0)
+		}
 		vsym.Assume(vsym.Implies(size != 0, vsym.And(ptr >= sh, ptr+size <= bodyEnd)))
 		for _, o := range v.secs {
 			vsym.Assume(vsym.Implies(vsym.And(size != 0, o.size != 0), vsym.Or(ptr+size <= o.ptr, o.ptr+o.size <= ptr)))
@@ -133,5 +141,41 @@ func VC01_DigestEqualsSpec() {
 	got := p.Hash(crypto.SHA256)
 	want := sha256.Sum256(vSpecStream(v))
 	vsym.AssertBytesEq(got, want[:], "digest equals the Authenticode PE hash of the specification")
+	vsym.Reach("end")
+}
+
+var vsymC01Parts = 2
+
+// VC01_MultiReadAt: the positional reader over concatenated ranges satisfies the io.ReaderAt
+// contract for every offset and request length (parts non-empty except possibly the last, which is
+// how Parse builds it).  This is what makes reading the hashed stream in one piece (the executor's
+// model of io.Copy) equivalent to the chunked reads of the real io.Copy.
+func VC01_MultiReadAt() {
+	names := []string{"part0", "part1", "part2", "part3"}
+	k := vsymC01Parts
+	var parts []SizeReaderAt
+	var all []byte
+	for i := 0; i < k; i++ {
+		b := vsym.Bytes(names[i], 1<<20)
+		if i < k-1 {
+			vsym.Assume(len(b) > 0)
+		}
+		parts = append(parts, sectionReaderFromBytes(b))
+		all = append(all, b...)
+	}
+	m := newMultiReaderAt(parts...)
+	vsym.Assert(m.Size() == int64(len(all)), "Size is the sum of the parts")
+	off := vsym.Int("off")
+	n := vsym.Int("n")
+	vsym.Assume(vsym.And(off >= 0, off <= 1<<23, n >= 0, n <= 1<<22))
+	p := make([]byte, n)
+	got, err := m.ReadAt(p, int64(off))
+	avail := vsym.IteInt(off < len(all), len(all)-off, 0)
+	want := vsym.IteInt(n < avail, n, avail)
+	vsym.Assert(got == want, "n = min(len(p), size-off)")
+	vsym.Assert((err == nil) == (got == n), "err is nil exactly when the buffer was filled")
+	if got > 0 {
+		vsym.AssertBytesEq(p[:got], all[off:off+got], "bytes are those of the concatenation at off")
+	}
 	vsym.Reach("end")
 }
